@@ -8,6 +8,7 @@ import Cachelito.Monitors
 import Cachelito.MacroDriver
 import Cachelito.MemDriver
 import Cachelito.ConcDriver
+import Cachelito.CDataDriver
 import Cachelito.KeysDriver
 import Cachelito.AttrsDriver
 
@@ -109,8 +110,9 @@ partial def main (args : List String) : IO UInt32 := do
     pure (if ctx.diffs = 0 && ctx.bad = 0 then 0 else 1)
   | ["mem"] => simpleMode stdin Cachelito.MemDriver.handleMemLine
   | ["conc"] => simpleMode stdin Cachelito.ConcDriver.handleConcLine
+  | ["cdata"] => simpleMode stdin Cachelito.CDataDriver.handleCDataLine
   | ["keys"] => simpleMode stdin Cachelito.KeysDriver.handleKeysLine
   | ["attrs"] => simpleMode stdin Cachelito.AttrsDriver.handleAttrsLine
   | _ =>
-    IO.eprintln "usage: driver core|macro|mem|conc|keys|attrs < lines"
+    IO.eprintln "usage: driver core|macro|mem|conc|cdata|keys|attrs < lines"
     pure 2
